@@ -1,5 +1,18 @@
 """C18 — fiber spinlock (src/fiber_spinlock.c): ticket lock with trylock, 32-bit wrap-around."""
+import os
+import sys
+
 from specs import sched_env, n_cases
+
+sys.path.insert(0, os.path.join(os.path.dirname(os.path.dirname(os.path.abspath(__file__))), "extract"))
+import spin_extract  # noqa: E402
+
+
+def pre(repo):
+    """translator step (facts no trace shows): spin loop left only by its condition, 32-bit halves
+    of a 64-bit word, loop-free trylock/unlock"""
+    return spin_extract.check(repo)
+
 
 M32 = 1 << 32
 
@@ -94,6 +107,7 @@ def _event_locks_part():
 
 SPEC = {
     "C18": {
+        "pre": pre,
         "parts": [{"name": "spin", "harness": "spin", "model": "Spin", "gen": gen_spin}, _event_locks_part()],
         "trusted_base": [
             "32-bit ticket/users counters modelled modulo 2^32 with arbitrary initial value; "
